@@ -170,4 +170,19 @@ def tryStages (v : PyVal) (ms : List Member) : List Nat → M PyVal
 def unionParse (ms : List Member) (stages : List Nat) (v : PyVal) : M PyVal :=
   if ms.any (fun m => m.exact v) then pure v else tryStages v ms stages
 
+/-! ### two more places where a declared type is reached (round 4)
+
+* the Send slot of a `@utype.parse` generator (`func.py:782-793, 873-884`): `sent = yield item`; a sent value other than `None`
+  is parsed with the declared Send type — whatever its truth value.
+* a field whose whole annotation is a forward reference (`qty: "Quantity" = Field(le=100)`): the `Field(...)` constraints are stored
+  with the pending reference (`register_forward_ref`) and applied when the name resolves (`base.py:_resolve_forward_refs` →
+  `Rule.parse_annotation(annotation=value, constraints=constraints)` = `annotate`): one more class body in front of the target's MRO. -/
+
+def sendSlot (parse : PyVal → M PyVal) (sent : PyVal) : M PyVal :=
+  match sent with
+  | .none => pure .none
+  | v => parse v
+
+def resolveForwardRef (fieldConstraints : Body) (targetMro : List Body) : List Body := fieldConstraints :: targetMro
+
 end Utv.C02D
